@@ -25,9 +25,15 @@ CTX = [
     ("Map<tuple>", lambda x: ("hmap", rg.P("String"), ("tuple", [rg.P("i32"), x]))),
     ("Option<Map<Vec>>", lambda x: ("opt", ("bmap", rg.P("String"), ("vec", x)))),
     ("ref", lambda x: ("ref", x)),
+    # a second custom name in the same field that has no declaration of its own (a foreign type): the project type next to it is
+    # reachable all the same, whichever of the two names sorts first
+    ("tuple-after-foreign", lambda x: ("tuple", [rg.N("AaaForeignPath"), x])),
+    ("tuple-before-foreign", lambda x: ("tuple", [x, rg.N("ZzzForeignId")])),
+    ("map-foreign-key", lambda x: ("hmap", rg.N("AaaForeignPath"), x)),
+    ("Vec<tuple-after-two-foreign>", lambda x: ("vec", ("tuple", [rg.N("AaaForeignPath"), rg.N("Aab"), x, rg.N("ZzzForeignId")]))),
 ]
 # type names that begin like the containers / primitives the tool recognises by string prefix, and other awkward shapes
-NAME_POOL = ["Options", "OptionalFeature", "Option_", "Vec3", "Vector", "VecDeque2", "HashSetStats", "HashMapper", "BTreeMapView", "BTreeSetLike",
+NAME_POOL = ["Table", "TableSchema", "Schema", "JsonSchema", "QueryParams", "QueryParamsSchema", "Options", "OptionalFeature", "Option_", "Vec3", "Vector", "VecDeque2", "HashSetStats", "HashMapper", "BTreeMapView", "BTreeSetLike",
              "Results", "ResultSet", "Stringy", "StringList", "Str", "Boolean", "Bool", "I32Wrapper", "U8", "F64x", "Usize", "Channel2", "ChannelMsg",
              "Record", "Tuple", "Unit", "Boxed", "ArcItem", "T", "A", "Z9", "Item_V2", "HTTPResponse", "State2", "Window2", "AppHandle2", "Event", "Error",
              "Self_", "Some", "None_", "Ok", "Err", "Node", "User", "Config"]
@@ -54,7 +60,7 @@ def gen_case(rnd, idx, forced_ctx=None, forced_root=None, n=None):
         for j in range(n):
             p = 0.28 if j > i else 0.08  # mostly forward, some back edges (cycles) and self loops
             if rnd.random() < p:
-                lab, f = forced_ctx if (forced_ctx and rnd.random() < 0.7) else rnd.choice(CTX[:-1])
+                lab, f = forced_ctx if (forced_ctx and rnd.random() < 0.7) else rnd.choice([c_ for c_ in CTX if c_[0] != "ref"])
                 edges[i].append((j, lab, f(rg.N(names[j]))))
     nonserde = {i for i in range(n) if i > 0 and rnd.random() < 0.12}
     nfiles = rnd.randint(1, 5)
